@@ -188,6 +188,11 @@ func (w *world) apply(c cfg, op int) string {
 				if idle && (t.Count != 0 || len(t.Percentiles) != 0 || len(t.Values) != 0 || t.PerSecond != 0) {
 					return fmt.Sprintf("idle timer reported with count %d percentiles %v values %v", t.Count, t.Percentiles, t.Values)
 				}
+				// an interval without values has no statistics of its own: whatever is reported must not be left over
+				// from an earlier interval
+				if idle && (t.Min != 0 || t.Max != 0 || t.Sum != 0 || t.SumSquares != 0 || t.Mean != 0 || t.Median != 0 || t.StdDev != 0 || t.SampledCount != 0) {
+					return fmt.Sprintf("idle timer reported with statistics of an earlier interval: min %v max %v sum %v mean %v median %v stddev %v sum_squares %v sampled %v", t.Min, t.Max, t.Sum, t.Mean, t.Median, t.StdDev, t.SumSquares, t.SampledCount)
+				}
 				if !idle && t.Count != r.pending {
 					return fmt.Sprintf("timer count %d, received %d", t.Count, r.pending)
 				}
